@@ -27,6 +27,15 @@ package jsonapi
 //@ spec upShape(res *SoftResource, typ Type, t string) = res != nil && fresh(res) && res.Type != nil && fresh(res.Type) && res.Type.Name == typ.Name && srTypeWf(res) && res.id == rsk_id(t) && (res.Type.Attrs == nil || fresh(res.Type.Attrs)) && (res.Type.Rels == nil || fresh(res.Type.Rels)) && (res.data == nil || fresh(res.data)) && res.Type.NewFunc == nil
 //@ spec upTyped(res *SoftResource) = res.data != nil ==> srTyped(res)
 
+// Acceptance as a predicate of the payload text and the schema (C13: partial
+// unmarshaling accepts exactly what full unmarshaling accepts).
+//@ spec typeLike(a Type, b Type) = a.Name == b.Name && (forall k string :: (k in a.Attrs) == (k in b.Attrs) && (k in b.Attrs ==> a.Attrs[k] == b.Attrs[k])) && (forall k string :: (k in a.Rels) == (k in b.Rels) && (k in b.Rels ==> a.Rels[k] == b.Rels[k]))
+//@ spec relDataOK(rel Rel, d string) = d == "" || ite(rel.ToOne, isIdentJSON(d), isIdentsJSON(d))
+//@ spec attrsOK(t string, ty Type) = forall a string :: rsk_hasAttr(t, a) ==> a in ty.Attrs && uttOK(ty.Attrs[a], rsk_attrText(t, a))
+//@ spec relsOK(t string, ty Type) = forall r string :: rsk_hasRel(t, r) ==> r in ty.Rels && relDataOK(ty.Rels[r], rsk_relData(t, r))
+//@ spec named(s *Schema, i int, n string) = 0 <= i && i < len(s.Types) && s.Types[i].Name == n
+//@ spec resAccept(s *Schema, t string) = jsonOK_resource(t) && (exists i int :: named(s, i, rsk_type(t)) && attrsOK(t, s.Types[i]) && relsOK(t, s.Types[i]))
+
 // Relationship values as functions of the payload: the id decoded from the data
 // member (into a zero Identifier: "" when data is null) / the list of ids.
 //@ spec relOneVal(v any, t string) = dyn(v) == type[string] && str(v) == ident_id(t)
@@ -36,9 +45,10 @@ package jsonapi
 //@ func UnmarshalPartialResource
 //@ flag post-per-return
 //@ props C13 C05 C12
-//@ requires schema: schema != nil && allTypesWf(schema) && noIDField(schema)
+//@ requires schema: schema != nil && allTypesWf(schema) && uniqueNames(schema) && noIDField(schema)
 //@ modifies new[SoftResource], new[Type], new[map[string]any], new[map[string]Attr], new[map[string]Rel], new[time.Time], new[uint8], new[string], new[resourceSkeleton], new[map[string][]uint8], new[map[string]relationshipSkeleton], new[Identifier], new[[]Identifier], new[any], new[int], new[int8], new[int16], new[int32], new[int64], new[uint], new[uint16], new[uint32], new[uint64], new[bool], new[[]uint8]
 //@ ensures error-xor-result: (result1 != nil) == (result0 == nil)
+//@ ensures accept: (result1 == nil) == resAccept(schema, old(text(data)))
 //@ ensures known-type: result1 == nil ==> hasType(schema, result0.Type.Name)
 //@ ensures type-name: result1 == nil ==> result0.Type != nil && result0.Type.Name == rsk_type(old(text(data)))
 //@ ensures id: result1 == nil ==> result0.id == rsk_id(old(text(data)))
@@ -57,6 +67,9 @@ package jsonapi
 //@ loop 0 invariant attrs-only: forall a string :: a in res.Type.Attrs ==> visited(a) && a in typ.Attrs
 //@ loop 0 invariant no-rels: forall r string :: !(r in res.Type.Rels)
 //@ loop 0 invariant typed: upTyped(res)
+//@ loop 0 invariant visited-ok: forall a2 string :: visited(a2) ==> a2 in typ.Attrs && uttOK(typ.Attrs[a2], rsk_attrText(old(text(data)), a2))
+//@ loop 0 invariant json-ok: jsonOK_resource(old(text(data)))
+//@ loop 0 invariant first-now: exists i int :: named(schema, i, rsk_type(old(text(data)))) && typ == schema.Types[i]
 //@ loop 0 invariant data-only-fields: res.data != nil ==> (forall k string :: k in res.data ==> srIsField(res, k))
 //@ loop 1 invariant frame: unchanged(heap[Type]) && unchanged(heap[Schema]) && unchanged(maps[map[string]Attr]) && unchanged(maps[map[string]Rel]) && unchanged(heap[string]) && unchanged(heap[uint8]) && unchanged(heap[SoftResource]) && unchanged(maps[map[string]any])
 //@ loop 1 invariant loopframe: loopkept(heap[uint8])
@@ -68,6 +81,10 @@ package jsonapi
 //@ loop 1 invariant rels-so-far: forall r string :: visited(r) && rsk_relData(old(text(data)), r) != "" ==> r in res.Type.Rels && res.Type.Rels[r] == typ.Rels[r]
 //@ loop 1 invariant rels-only: forall r string :: r in res.Type.Rels ==> visited(r) && r in typ.Rels && rsk_relData(old(text(data)), r) != ""
 //@ loop 1 invariant typed: upTyped(res)
+//@ loop 1 invariant attrs-ok: attrsOK(old(text(data)), typ)
+//@ loop 1 invariant visited-ok: forall r3 string :: visited(r3) ==> r3 in typ.Rels && relDataOK(typ.Rels[r3], rsk_relData(old(text(data)), r3))
+//@ loop 1 invariant json-ok: jsonOK_resource(old(text(data))) && err == nil
+//@ loop 1 invariant first-now: exists i int :: named(schema, i, rsk_type(old(text(data)))) && typ == schema.Types[i]
 //@ loop 1 invariant rel-values: forall r2 string :: r2 in res.Type.Rels ==> r2 in res.data && relVal(res.data[r2], res.Type.Rels[r2], rsk_relData(old(text(data)), r2))
 //@ loop 1 invariant data-only-fields: res.data != nil ==> (forall k string :: k in res.data ==> srIsField(res, k))
 //@ loop 2 invariant ids: fresh(ids) && len(ids) == len(idens) && unchanged(heap[string]) && loopkept(heap[string], ids)
@@ -104,7 +121,7 @@ package jsonapi
 //@ assert before Set#2 others-kept: forall r2 string :: r2 != r && r2 in res.Type.Rels ==> visited#1(r2) && r2 in typ.Rels && res.Type.Rels[r2] == typ.Rels[r2]
 //@ assert before Set#1 data-fields: res.data != nil ==> (forall k string :: k in res.data ==> srIsField(res, k))
 //@ assert before Set#2 data-fields: res.data != nil ==> (forall k string :: k in res.data ==> srIsField(res, k))
-//@ use Attr.UnmarshalToType: error-xor-value typed-string typed-int typed-int8 typed-int16 typed-int32 typed-int64 typed-uint typed-uint8 typed-uint16 typed-uint32 typed-uint64 typed-bool typed-time-Time typed-slice-byte
+//@ use Attr.UnmarshalToType: error-xor-value accepts accepts-bytes typed-string typed-int typed-int8 typed-int16 typed-int32 typed-int64 typed-uint typed-uint8 typed-uint16 typed-uint32 typed-uint64 typed-bool typed-time-Time typed-slice-byte
 //@ use Schema.GetType: found missing named first
 //@ assert before Set#1 one-text: rsk_hasRel(old(text(data)), r) && text(v#1.Data) == rsk_relData(old(text(data)), r) && (err == nil ==> iden.ID == ident_id(rsk_relData(old(text(data)), r)))
 //@ assert before Set#1 prev-vals: forall r2 string :: r2 != r && r2 in res.Type.Rels ==> r2 in res.data && relVal(res.data[r2], res.Type.Rels[r2], rsk_relData(old(text(data)), r2))
@@ -149,9 +166,10 @@ package jsonapi
 //@ flag post-per-return
 //@ inline Type.New
 //@ props C05 C13 C12
-//@ requires schema: schema != nil && allTypesWf(schema) && noIDField(schema) && softSchema(schema)
+//@ requires schema: schema != nil && allTypesWf(schema) && uniqueNames(schema) && noIDField(schema) && softSchema(schema)
 //@ modifies new[SoftResource], new[Type], new[map[string]any], new[map[string]Attr], new[map[string]Rel], new[time.Time], new[uint8], new[string], new[resourceSkeleton], new[map[string][]uint8], new[map[string]relationshipSkeleton], new[Identifier], new[[]Identifier], new[any], new[int], new[int8], new[int16], new[int32], new[int64], new[uint], new[uint16], new[uint32], new[uint64], new[bool], new[[]uint8]
 //@ ensures error-xor-result: (result1 != nil) == (result0 == nil)
+//@ ensures accept: (result1 == nil) == resAccept(schema, old(text(data)))
 //@ ensures soft: result1 == nil ==> dyn(result0) == type[*SoftResource] && asSoft(result0) != nil && asSoft(result0).Type != nil
 //@ ensures known-type: result1 == nil ==> hasType(schema, asSoft(result0).Type.Name)
 //@ ensures type-name: result1 == nil ==> asSoft(result0).Type.Name == rsk_type(old(text(data)))
@@ -169,6 +187,9 @@ package jsonapi
 //@ loop 0 invariant typed: srTyped(asSoft(res))
 //@ loop 0 invariant data-only-fields: forall k string :: k in asSoft(res).data ==> srIsField(asSoft(res), k)
 //@ loop 0 invariant visited-known: forall a string :: visited(a) ==> a in typ.Attrs
+//@ loop 0 invariant visited-ok: forall a2 string :: visited(a2) ==> uttOK(typ.Attrs[a2], rsk_attrText(old(text(data)), a2))
+//@ loop 0 invariant json-ok: jsonOK_resource(old(text(data))) && typeLike(typ, typ0)
+//@ loop 0 invariant first-now: exists i int :: named(schema, i, rsk_type(old(text(data)))) && typ0 == schema.Types[i]
 //@ loop 1 invariant frame: unchanged(heap[Type]) && unchanged(heap[Schema]) && unchanged(maps[map[string]Attr]) && unchanged(maps[map[string]Rel]) && unchanged(heap[string]) && unchanged(heap[uint8]) && unchanged(heap[SoftResource]) && unchanged(maps[map[string]any])
 //@ loop 1 invariant loopframe: loopkept(heap[uint8]) && loopkept(maps[map[string]Rel]) && loopkept(maps[map[string]Attr])
 //@ loop 1 invariant shape: urShape(res, old(text(data))) && asSoft(res).Type == &typ && typ == pre(typ) && srReady(asSoft(res)) && fresh(asSoft(res).data) && res == pre(res) && asSoft(res).data == pre(asSoft(res).data)
@@ -179,10 +200,14 @@ package jsonapi
 //@ loop 1 invariant rel-values-one: forall r2 string :: visited(r2) && rsk_relData(old(text(data)), r2) != "" ==> r2 in asSoft(res).data && (typ.Rels[r2].ToOne ==> relOneVal(asSoft(res).data[r2], rsk_relData(old(text(data)), r2)))
 //@ loop 1 invariant rel-values-many: forall r2 string :: visited(r2) && rsk_relData(old(text(data)), r2) != "" ==> r2 in asSoft(res).data && (!typ.Rels[r2].ToOne ==> relManyVal(asSoft(res).data[r2], rsk_relData(old(text(data)), r2)))
 //@ loop 1 invariant visited-known: forall r string :: visited(r) ==> r in typ.Rels
+//@ loop 1 invariant attrs-ok: attrsOK(old(text(data)), typ)
+//@ loop 1 invariant visited-ok: forall r2 string :: visited(r2) ==> relDataOK(typ.Rels[r2], rsk_relData(old(text(data)), r2))
+//@ loop 1 invariant json-ok: jsonOK_resource(old(text(data))) && typeLike(typ, typ0) && err == nil
+//@ loop 1 invariant first-now: exists i int :: named(schema, i, rsk_type(old(text(data)))) && typ0 == schema.Types[i]
 //@ loop 2 invariant ids: fresh(ids) && len(ids) == len(idens) && unchanged(heap[string]) && loopkept(heap[string], ids)
 //@ loop 2 invariant ids-so-far: forall j int :: 0 <= j && j <= $idx ==> ids[j] == idens[j].ID
 //@ use SoftResource.Set: set-id keep-id set-rel others checked fresh-data fresh-maps new-maps-empty typed-attrs typed-rels only-fields
-//@ use Attr.UnmarshalToType: error-xor-value typed-string typed-int typed-int8 typed-int16 typed-int32 typed-int64 typed-uint typed-uint8 typed-uint16 typed-uint32 typed-uint64 typed-bool typed-time-Time typed-slice-byte
+//@ use Attr.UnmarshalToType: error-xor-value accepts accepts-bytes typed-string typed-int typed-int8 typed-int16 typed-int32 typed-int64 typed-uint typed-uint8 typed-uint16 typed-uint32 typed-uint64 typed-bool typed-time-Time typed-slice-byte
 //@ use Schema.GetType: found missing named first
 //@ assert after Set#1 typ-kept: typ == pre(typ) && asSoft(res).Type == &typ && dyn(res) == type[*SoftResource]
 //@ assert after Set#1 maps-kept: loopkept(maps[map[string]Rel]) && loopkept(maps[map[string]Attr]) && loopkept(heap[uint8])
@@ -218,7 +243,7 @@ package jsonapi
 //@ func UnmarshalCollection
 //@ flag post-per-return
 //@ props C05 C12
-//@ requires schema: schema != nil && allTypesWf(schema) && noIDField(schema) && softSchema(schema)
+//@ requires schema: schema != nil && allTypesWf(schema) && uniqueNames(schema) && noIDField(schema) && softSchema(schema)
 //@ modifies new[Resources], new[Resource], new[SoftResource], new[Type], new[map[string]any], new[map[string]Attr], new[map[string]Rel], new[time.Time], new[uint8], new[string], new[resourceSkeleton], new[map[string][]uint8], new[map[string]relationshipSkeleton], new[Identifier], new[[]Identifier], new[any], new[int], new[int8], new[int16], new[int32], new[int64], new[uint], new[uint16], new[uint32], new[uint64], new[bool], new[[]uint8]
 //@ ensures error-xor-result: (result1 != nil) == (result0 == nil)
 //@ ensures resources: result1 == nil ==> dyn(result0) == type[*Resources] && unbox(result0, type[*Resources]) != nil
@@ -239,7 +264,7 @@ package jsonapi
 //@ func UnmarshalDocument
 //@ flag post-per-return
 //@ props C05 C12
-//@ requires schema: schema != nil && allTypesWf(schema) && noIDField(schema) && softSchema(schema)
+//@ requires schema: schema != nil && allTypesWf(schema) && uniqueNames(schema) && noIDField(schema) && softSchema(schema)
 //@ modifies new[Document], new[payloadSkeleton], new[Error], new[Link], new[map[string]Link], new[map[string]map[string]struct{}], new[map[string]struct{}], new[map[string][]string], new[[]string], new[Resources], new[Resource], new[SoftResource], new[Type], new[map[string]any], new[map[string]Attr], new[map[string]Rel], new[time.Time], new[uint8], new[string], new[resourceSkeleton], new[map[string][]uint8], new[map[string]relationshipSkeleton], new[Identifier], new[[]Identifier], new[any], new[int], new[int8], new[int16], new[int32], new[int64], new[uint], new[uint16], new[uint32], new[uint64], new[bool], new[[]uint8]
 //@ ensures error-xor-result: (result1 != nil) == (result0 == nil)
 //@ ensures data: result1 == nil ==> result0.Data == nil || urOK(result0.Data, schema) || colOK(result0.Data, schema)
@@ -303,10 +328,21 @@ package jsonapi
 //@ flag post-per-return
 //@ props C05
 //@ requires req: r != nil
-//@ requires schema: schema != nil && allTypesWf(schema) && noIDField(schema) && softSchema(schema) && targetsExist(schema)
+//@ requires schema: schema != nil && allTypesWf(schema) && uniqueNames(schema) && noIDField(schema) && softSchema(schema) && targetsExist(schema)
 //@ modifies all
 //@ ensures error-xor-result: (result1 != nil) == (result0 == nil)
 //@ ensures doc-data: result1 == nil && result0.Doc != nil ==> result0.Doc.Data == nil || urOK(result0.Doc.Data, schema) || colOK(result0.Doc.Data, schema)
 //@ ensures doc-included: result1 == nil && result0.Doc != nil ==> (forall k int :: 0 <= k && k < len(result0.Doc.Included) ==> urOK(result0.Doc.Included[k], schema))
 //@ func UnmarshalResource+
 //@ assert after len#0 data-text: rsk_hasRel(old(text(data)), r) && text(v#1.Data) == rsk_relData(old(text(data)), r)
+
+//@ func UnmarshalResource+
+//@ ghost before New#0 typ0 = typ
+//@ assert after Set#0 typ-like: typeLike(typ, typ0)
+//@ assert before UnmarshalToType#0 attr-text: rsk_hasAttr(old(text(data)), a) && text(v) == rsk_attrText(old(text(data)), a)
+//@ assert after len#0 no-data: len(v#1.Data) == 0 ==> rsk_relData(old(text(data)), r) == ""
+
+//@ func UnmarshalPartialResource+
+//@ assert before UnmarshalToType#0 attr-text: rsk_hasAttr(old(text(data)), a) && text(v) == rsk_attrText(old(text(data)), a)
+//@ assert after len#0 data-text: rsk_hasRel(old(text(data)), r) && text(v#1.Data) == rsk_relData(old(text(data)), r)
+//@ assert after len#0 no-data: len(v#1.Data) == 0 ==> rsk_relData(old(text(data)), r) == ""
